@@ -380,7 +380,11 @@ def compileTupleElems (d : FnDef) : (container tmp len i : Nat) → (fromEnd : B
   | c, tmp, len, i, fe, .packed on :: ps =>
     if i == 0 then
       (match on with
-        | some n => regOr d n (fun r => [.sliceTo r c (-((len - 1 : Nat) : Int))])
+        | some n =>
+          -- a sole `xs...` takes the whole container (SliceFrom 0); otherwise everything but the
+          -- last `len - 1` elements (SliceTo -(len-1); for len = 1 that index would be 0 = nothing)
+          if len == 1 then regOr d n (fun r => [.sliceFrom r c 0])
+          else regOr d n (fun r => [.sliceTo r c (-((len - 1 : Nat) : Int))])
         | none => []) ++ compileTupleElems d c tmp len (i + 1) true ps
     else if ps.isEmpty then
       (match on with
